@@ -75,6 +75,20 @@ fn bytes_bits(b: &[u8]) -> Vec<bool> {
 fn bits_str(b: &[bool]) -> String {
     b.iter().map(|x| if *x { 'x' } else { '.' }).collect()
 }
+/// source text of a raw literal: single-bit characters, or (lengths 4k+1, k >= 1) one single-bit
+/// character followed by hex digits, so that digits start at bits 1, 5, 9 ... and straddle bytes
+fn lit_src(b: &[bool]) -> String {
+    if b.len() >= 5 && b.len() % 4 == 1 {
+        let mut s = String::from(if b[0] { "x " } else { ". " });
+        for c in b[1..].chunks(4) {
+            let v = c.iter().fold(0u32, |a, x| (a << 1) | *x as u32);
+            s.push(char::from_digit(v, 16).unwrap());
+        }
+        s
+    } else {
+        bits_str(b)
+    }
+}
 fn real_src(v: f64) -> String {
     if v.is_infinite() {
         if v > 0.0 { "1.0e400".into() } else { "-1.0e400".into() }
@@ -142,7 +156,7 @@ impl El {
             El::IntFix { w, signed, mode, v } => format!("{} {}{}{}!", v, if *signed { "i" } else { "u" }, w, El::sfx(*mode)),
             El::FloatFix { w, mode, v } => format!("{} f{}{}!", real_src(*v), w, El::sfx(*mode)),
             El::FloatGen { w, v } => format!("{} {} float!", real_src(*v), w),
-            El::RawLit(b) => format!("|{}|", bits_str(b)),
+            El::RawLit(b) => format!("|{}|", lit_src(b)),
             El::RawSlice { k, n } => format!("[ {} ] >bitstr open-bitstr {} bits drop {} bits close-bitstr", PARENT.iter().map(|b| format!("{}", b)).collect::<Vec<_>>().join(" "), k, n),
             El::Str(s) => format!("\"{}\" >bitstr", s),
             El::Bytes(b) => format!("[ {}] >bitstr", b.iter().map(|x| format!("{} ", x)).collect::<String>()),
